@@ -237,6 +237,8 @@ def frame_case(draw):
         c["silent"] = draw(st.sampled_from([None, None, "ref", "est"]))
         c["silent_win"] = draw(st.integers(0, nwin - 1))
         c["silent_src"] = draw(st.integers(0, c["nsrc"] - 1))
+        # a gated stem: the whole window is zero, or everything but its very first / very last sample (then the window is NOT silent)
+        c["silent_how"] = draw(st.sampled_from(["all", "all", "all_but_first", "all_but_last"]))
     elif shape == "single":
         c["n"] = w + draw(st.integers(0, w // 2 - 1))
     c["compute_permutation"] = draw(st.booleans())
@@ -271,7 +273,11 @@ def pred_framewise(case, ctx):
     if case.get("silent"):
         k = case["silent_win"]
         tgt = ref if case["silent"] == "ref" else est
-        tgt[case["silent_src"], k * h:k * h + w] = 0.0
+        how = case.get("silent_how", "all")
+        lo_, hi_ = k * h + (1 if how == "all_but_first" else 0), k * h + w - (1 if how == "all_but_last" else 0)
+        tgt[case["silent_src"], lo_:hi_] = 0.0
+        if how != "all":
+            ctx.event("window_silent_except_one_edge_sample")
     out = ctx.call(fw, ref, est, window=w, hop=h, compute_permutation=cp)
     if len(out) != arity:
         raise Violation("%s returns %d arrays, documented arity is %d" % (name, len(out), arity))
